@@ -22,6 +22,7 @@ type variant struct {
 	claimH     uint64
 	claimChain string
 	allSites   bool
+	commitID   *types.BlockID // Commit.BlockID field when it differs from the claim
 }
 
 // quorum is the statement's rule for a commit: validators holding strictly
@@ -150,6 +151,22 @@ func (rs *runState) commitPhase() (verdicts int) {
 		variant{name: "claim-height+1", pcs: cp(), claimB: B, claimH: w.H + 1, claimChain: w.chainID})
 	if w.H > 1 {
 		vars = append(vars, variant{name: "claim-height-1", pcs: cp(), claimB: B, claimH: w.H - 1, claimChain: w.chainID})
+	}
+	// a full, honestly signed quorum — for another block id. The sites that
+	// know which block they expect (status.LastBlockID, the first block's id)
+	// must refuse it whatever the commit's own BlockID field says.
+	for k := 0; k < 2; k++ {
+		other := w.ids[1+t.Int(len(w.ids)-2)]
+		f := make([]*types.Vote, w.n)
+		for i := range f {
+			f[i] = w.honest(i, w.H, w.R, types.VoteTypePrecommit, other, w.chainID)
+		}
+		v := variant{name: "quorum-for-other-block", pcs: f, claimB: B, claimH: w.H, claimChain: w.chainID, allSites: true}
+		if k == 1 {
+			v.name = "quorum-for-other-block-labelled-other"
+			v.commitID = &other
+		}
+		vars = append(vars, v)
 	}
 	// drop B votes one at a time, every prefix
 	order := append([]int{}, bVoters...)
@@ -363,7 +380,11 @@ func (rs *runState) commitPhase() (verdicts int) {
 			return true
 		}
 		// site 1: the library call
-		err := w.valSet.VerifyCommit(v.claimChain, v.claimB, v.claimH, freshCommit(v.claimB, v.pcs))
+		cid := v.claimB
+		if v.commitID != nil {
+			cid = *v.commitID
+		}
+		err := w.valSet.VerifyCommit(v.claimChain, v.claimB, v.claimH, freshCommit(cid, v.pcs))
 		if !verdict("VerifyCommit", err == nil, fmt.Sprint(err)) {
 			return
 		}
@@ -372,7 +393,7 @@ func (rs *runState) commitPhase() (verdicts int) {
 		}
 		// site 2: fast sync. The reactor has two blocks decoded from the wire and
 		// accepts the first if second.LastCommit verifies for the first's id.
-		second := w.makeBlock(w.H+1, B, freshCommit(B, v.pcs), rs.faultEvidence(v.pcs), uint64(w.base.Unix())+1)
+		second := w.makeBlock(w.H+1, B, freshCommit(cid, v.pcs), rs.faultEvidence(v.pcs), uint64(w.base.Unix())+1)
 		var dec types.Block
 		decoded := false
 		if bz, err := ser.EncodeToBytes(second); err == nil {
@@ -480,7 +501,11 @@ var consCfg = cfg.TestConsensusConfig()
 func (rs *runState) reconstruct(v variant, clean bool, verdict func(string, bool, string) bool) bool {
 	w, c := rs.w, rs.c
 	st := rs.status()
-	app := &seenCommitApp{commit: freshCommit(v.claimB, v.pcs)}
+	cid := v.claimB
+	if v.commitID != nil {
+		cid = *v.commitID
+	}
+	app := &seenCommitApp{commit: freshCommit(cid, v.pcs)}
 	var state *cs.ConsensusState
 	site, msg, panicked := kernel.Try(func() {
 		state = cs.NewConsensusState(consCfg, st, nil, app, cs.MockMempool{}, cs.MockEvidencePool{})
